@@ -215,7 +215,7 @@ func (w *world) sigTerm(b []byte) string {
 		return "SigNone"
 	}
 	if t, ok := w.sigTab[string(b)]; ok {
-		return hx.App("SigReal", hx.Nat(t.k), hx.Bytes(t.ctx), hx.Z(int64(int32(t.ht))), hx.Bytes(t.data))
+		return hx.App("SigReal", hx.Nat(t.k), bz(t.ctx), hx.Z(int64(int32(t.ht))), bz(t.data))
 	}
 	n, ok := w.junk[string(b)]
 	if !ok {
@@ -458,8 +458,8 @@ func (w *world) emitMsg(m *peer.SignedMsg, ctx []byte, how, class string) evRes 
 	r := w.extractAndVerify(m, ctx)
 	desc := w.msgDesc("ExtractAndVerify", m, ctx, r, how)
 	sg := m.GetSignature()
-	c.Case(hx.App("Msg", hx.Bytes(ctx), w.senderTerm(m.GetFromPeerId()), w.pubTerm(sg.GetPubKey()),
-		hx.Z(int64(int32(sg.GetHashType()))), w.sigTerm(sg.GetSigData()), hx.Bytes(m.GetData()),
+	c.Case(hx.App("Msg", bz(ctx), w.senderTerm(m.GetFromPeerId()), w.pubTerm(sg.GetPubKey()),
+		hx.Z(int64(int32(sg.GetHashType()))), w.sigTerm(sg.GetSigData()), bz(m.GetData()),
 		hx.Nat(r.cls), hx.Nat(r.key)), desc)
 	c.Class(class)
 	if r.accepted {
@@ -736,7 +736,7 @@ func (w *world) varyPubField(m *peer.SignedMsg, t tuple) string {
 func c01(c *hx.Ctx, w *world) {
 	c.Type = "c01_case"
 	c.Agree = "c01_agree"
-	c.Rule = "honest SignedMsg over 4 keys x 8 contexts x 7 bodies x 3 hash types; every single-field tampering (context, body, sender, hash type, signature bytes incl. transplant from a message differing in one component / truncation / extension / bit flip / random / empty / nil object), pairs of tamperings, consistent whole-message substitutions, random field combinations; pub_key field variations; marshalled messages mutated on the wire and random bytes through UnmarshalSignedMsg; NewSignedMsg with unsupported hash types / empty body; non-trivial = distinct accepted message"
+	c.Rule = "honest SignedMsg over 4 keys x (11 short contexts incl. whitespace neighbours + long contexts in the size classes 63..1024 with last-byte / offset-300 neighbours) x (7 short bodies + sized bodies) x 3 hash types; arguments as sub-slices with spare capacity, repeated calls, recycled buffers holding another message before; every single-field tampering (context, body, sender, hash type, signature bytes incl. transplant from a message differing in one component / truncation / extension / bit flip / random / empty / nil object), pairs of tamperings, consistent whole-message substitutions, random field combinations; pub_key field variations; marshalled messages mutated on the wire and random bytes through UnmarshalSignedMsg; NewSignedMsg with unsupported hash types / empty body; non-trivial = distinct accepted message"
 	tps := tampers()
 	nWire := c.N / 4
 	nSign := c.N / 12
@@ -822,7 +822,7 @@ func c01(c *hx.Ctx, w *world) {
 			cls = 3
 		}
 		desc := map[string]any{"kind": "NewSignedMsg", "tuple": t.String(), "class": cls}
-		c.Case(hx.App("SignMsg", hx.Bytes(t.ctx), hx.Nat(t.k), hx.Z(int64(int32(t.ht))), hx.Bytes(t.data), hx.Nat(cls)), desc)
+		c.Case(hx.App("SignMsg", bz(t.ctx), hx.Nat(t.k), hx.Z(int64(int32(t.ht))), bz(t.data), hx.Nat(cls)), desc)
 		c.Class("new-signed-msg")
 		if panicked {
 			c.Failf("c01-sign-panic", desc, "NewSignedMsg panicked: %v", pv)
@@ -934,14 +934,14 @@ func c01(c *hx.Ctx, w *world) {
 		w.prevWire = wireBefore
 		if panicked {
 			desc := map[string]any{"kind": "UnmarshalSignedMsg", "how": how, "wire_hex": hx.Hex(wire)}
-			c.Case(hx.App("WireRaw", hx.Bytes(wire), hx.Bytes(ctx), "SenderEmpty", "PubNone", "SigNone", hx.Nat(99), hx.Nat(0), "None"), desc)
+			c.Case(hx.App("WireRaw", bz(wire), bz(ctx), "SenderEmpty", "PubNone", "SigNone", hx.Nat(99), hx.Nat(0), "None"), desc)
 			c.Class("wire/panic")
 			c.Failf("c01-unmarshal-panic", desc, "UnmarshalSignedMsg panicked: %v", pv)
 			continue
 		}
 		if derr != nil {
 			desc := map[string]any{"kind": "UnmarshalSignedMsg", "how": how, "wire_hex": hx.Hex(wire), "decode_error": true}
-			c.Case(hx.App("WireRaw", hx.Bytes(wire), hx.Bytes(ctx), "SenderEmpty", "PubNone", "SigNone", hx.Nat(11), hx.Nat(0), "None"), desc)
+			c.Case(hx.App("WireRaw", bz(wire), bz(ctx), "SenderEmpty", "PubNone", "SigNone", hx.Nat(11), hx.Nat(0), "None"), desc)
 			c.Class("wire/decode-error")
 			continue
 		}
@@ -949,9 +949,9 @@ func c01(c *hx.Ctx, w *world) {
 		desc := w.msgDesc("UnmarshalSignedMsg+ExtractAndVerify", dm, ctx, r, how)
 		desc["wire_hex"] = hx.Hex(wire)
 		sg := dm.GetSignature()
-		dec := "(Some (" + hx.Bytes([]byte(dm.GetFromPeerId())) + ", " + hx.Bytes(sg.GetPubKey()) + ", " + hx.Z(int64(int32(sg.GetHashType()))) + ", " +
-			hx.Bytes(sg.GetSigData()) + ", " + hx.Bytes(dm.GetData()) + "))"
-		c.Case(hx.App("WireRaw", hx.Bytes(wire), hx.Bytes(ctx), w.senderTerm(dm.GetFromPeerId()), w.pubTerm(sg.GetPubKey()),
+		dec := "(Some (" + bz([]byte(dm.GetFromPeerId())) + ", " + bz(sg.GetPubKey()) + ", " + hx.Z(int64(int32(sg.GetHashType()))) + ", " +
+			bz(sg.GetSigData()) + ", " + bz(dm.GetData()) + "))"
+		c.Case(hx.App("WireRaw", bz(wire), bz(ctx), w.senderTerm(dm.GetFromPeerId()), w.pubTerm(sg.GetPubKey()),
 			w.sigTerm(sg.GetSigData()), hx.Nat(r.cls), hx.Nat(r.key), dec), desc)
 		if r.accepted {
 			c.Class("wire/accepted")
@@ -971,7 +971,7 @@ func c01(c *hx.Ctx, w *world) {
 func c02(c *hx.Ctx, w *world) {
 	c.Type = "c02_case"
 	c.Agree = "c02_agree"
-	c.Rule = "NewSignature over keys x contexts x data x hash types (supported and 0, 4, 99, -1, 2^20) with and without embedded key; VerifyWithPublic of honest signatures under every substitution of 0, 1 or 2 of (key, context, hash type field, data), junk / truncated / extended / flipped / empty signature bytes, unsupported hash types; Signature.Validate over hash types x signature bytes x pub_key field (absent, parsable, unparsable); non-trivial = distinct case that verifies or validates"
+	c.Rule = "size classes 0..1024 for contexts and data (long common prefix, whitespace neighbours), embedded pub_key fields with 0..33 and 64 key bytes, recycled buffers; NewSignature over keys x contexts x data x hash types (supported and 0, 4, 99, -1, 2^20) with and without embedded key; VerifyWithPublic of honest signatures under every substitution of 0, 1 or 2 of (key, context, hash type field, data), junk / truncated / extended / flipped / empty signature bytes, unsupported hash types; Signature.Validate over hash types x signature bytes x pub_key field (absent, parsable, unparsable); non-trivial = distinct case that verifies or validates"
 	nNew := c.N / 6
 	nVal := c.N / 5
 	nVer := c.N - nNew - nVal
@@ -1029,7 +1029,7 @@ func c02(c *hx.Ctx, w *world) {
 			cls = 3
 		}
 		desc := map[string]any{"kind": "NewSignature", "tuple": t.String(), "incl_pub_key": incl, "class": cls}
-		c.Case(hx.App("NewSig", hx.Bytes(t.ctx), hx.Nat(t.k), hx.Z(int64(int32(t.ht))), hx.Bytes(t.data), hx.Bool(incl), hx.Nat(cls)), desc)
+		c.Case(hx.App("NewSig", bz(t.ctx), hx.Nat(t.k), hx.Z(int64(int32(t.ht))), bz(t.data), hx.Bool(incl), hx.Nat(cls)), desc)
 		c.Class("new-signature")
 		if panicked {
 			c.Failf("c02-new-signature-panic", desc, "NewSignature panicked: %v", pv)
@@ -1184,7 +1184,7 @@ func c02(c *hx.Ctx, w *world) {
 		}
 		desc := map[string]any{"kind": "VerifyWithPublic", "how": how, "signed": t.String(), "verified_against": v.String(),
 			"sig_hash_type": int32(s.HashType), "sig_data_hex": hx.Hex(s.SigData), "result": obs}
-		c.Case(hx.App("VerifyPub", hx.Bytes(v.ctx), hx.Nat(v.k), hx.Bytes(v.data), w.pubTerm(s.PubKey),
+		c.Case(hx.App("VerifyPub", bz(v.ctx), hx.Nat(v.k), bz(v.data), w.pubTerm(s.PubKey),
 			hx.Z(int64(int32(s.HashType))), w.sigTerm(s.SigData), hx.Nat(obs)), desc)
 		if how == "same" {
 			c.Class("verify/same")
